@@ -173,7 +173,7 @@ def describe(f, I):
 
 def gen_ignore(r, prog):
     """an ignore specification mixing names, indices, '*', '**', 'self'"""
-    cands = pnames(prog) + list(range(prog['npos'] + 2)) + ['*', '**', 'self'] + KWONLY[:prog['nkw']] + ['q']
+    cands = pnames(prog) + list(range(prog['npos'] + 2)) + ['*', '**', 'self'] + KWONLY[:prog['nkw']] + ['q'] + [-1, -2]
     n = r.choice([0, 0, 1, 1, 2, 3])
     return tuple(r.sample(cands, min(n, len(cands))))
 
